@@ -49,7 +49,8 @@ Inductive event :=
 | EUapi (now : N) (p : N) (a : addr) (hid : N)  (* set public_key=p endpoint=a *)
 | EShiftHs (p d : N)                       (* hook VerifShiftHandshakeTimes *)
 | ERestart (now : N)
-| ESetNonce (p : N).                       (* hook VerifSetSendNonce(p, RekeyAfterMessages + 1): the next data packet sent asks for a new handshake *)                      (* Device.Down then Device.Up: every peer is stopped and started *)
+| ESetNonce (p : N)
+| EAgeKeys (p : N).                        (* hook VerifShiftKeypairAges(p, 181 s): all three keypairs are older than RejectAfterTime *)                       (* hook VerifSetSendNonce(p, RekeyAfterMessages + 1): the next data packet sent asks for a new handshake *)                      (* Device.Down then Device.Up: every peer is stopped and started *)
 
 Inductive output :=
 | OResp (to : addr) (p : N)
@@ -58,7 +59,7 @@ Inductive output :=
 
 (* ---------------------------------------------------------------------- state *)
 
-Record sess := { s_id : N; s_filter : sstate }.
+Record sess := { s_id : N; s_filter : sstate; s_expired : bool }.   (* s_expired: created more than RejectAfterTime (180 s) ago *)
 
 Record peer := {
   p_id : N;
@@ -99,7 +100,7 @@ Definition with_ep (x : peer) (a : option addr) : peer :=
      p_last_sent := p_last_sent x; p_pending := p_pending x; p_prev := p_prev x; p_cur := p_cur x;
      p_next := p_next x; p_staged := p_staged x; p_rekey := p_rekey x |}.
 
-Definition new_sess (sid : N) : sess := {| s_id := sid; s_filter := sempty |}.
+Definition new_sess (sid : N) : sess := {| s_id := sid; s_filter := sempty; s_expired := false |}.
 
 (* -------------------------------------------------------- ConsumeMessageInitiation *)
 
@@ -181,7 +182,7 @@ Definition slot_of (x : peer) (sid : N) : option (slot * sess) :=
   end.
 
 (* opened under a live key of the peer and passed the replay filter:
-   index lookup finds a keypair, AEAD opens, ValidateCounter accepts *)
+   index lookup finds a keypair not older than 180 s, AEAD opens, ValidateCounter accepts *)
 Definition elem_accepts (st : dstate) (e : telem) : option (peer * slot * sess) :=
   match t_owner e with
   | None => None
@@ -192,14 +193,15 @@ Definition elem_accepts (st : dstate) (e : telem) : option (peer * slot * sess) 
           match slot_of x sid with
           | None => None
           | Some (sl, s) =>
-              if negb (t_tag e) then None
+              if s_expired s then None            (* keypair.created + RejectAfterTime is in the past: dropped before decryption *)
+              else if negb (t_tag e) then None
               else if accept (s_filter s) (t_ctr e) RejectAfterMessages then Some (x, sl, s) else None
           end
       end
   end.
 
 Definition mark (s : sess) (c : N) : sess :=
-  {| s_id := s_id s; s_filter := fst (sstep (s_filter s) (Validate c RejectAfterMessages)) |}.
+  {| s_id := s_id s; s_filter := fst (sstep (s_filter s) (Validate c RejectAfterMessages)); s_expired := s_expired s |}.
 
 (* one element of RoutineSequentialReceiver's loop; the endpoint written here is
    the value SetEndpointFromPacket leaves at the end of the batch if no later
@@ -242,7 +244,7 @@ Fixpoint recv_batch (st : dstate) (l : list telem) : dstate * list output :=
 Definition send_staged (st : dstate) (now : N) (x : peer) (hid : N) : dstate * list output :=
   if p_staged x =? 0 then (put_peer st x, [])
   else
-    match p_cur x with
+    match (match p_cur x with Some c => if s_expired c then None else Some c | None => None end) with
     | Some _ =>
         (* the packets go out under the current keypair; then keepKeyFreshSending: a send counter above
            RekeyAfterMessages asks for a new handshake, subject to the 5 s spacing *)
@@ -281,6 +283,17 @@ Definition set_rekey (x : peer) : peer :=
      p_next := p_next x; p_staged := p_staged x;
      p_rekey := match p_cur x with Some _ => true | None => p_rekey x end |}.
 
+Definition expire (o : option sess) : option sess :=
+  match o with
+  | Some s => Some {| s_id := s_id s; s_filter := s_filter s; s_expired := true |}
+  | None => None
+  end.
+
+Definition age_keys (x : peer) : peer :=
+  {| p_id := p_id x; p_endpoint := p_endpoint x; p_last_ts := p_last_ts x; p_last_consume := p_last_consume x;
+     p_last_sent := p_last_sent x; p_pending := p_pending x; p_prev := expire (p_prev x); p_cur := expire (p_cur x);
+     p_next := expire (p_next x); p_staged := p_staged x; p_rekey := p_rekey x |}.
+
 (* Peer.Stop (ZeroAndFlushAll: keypairs deleted, Handshake.Clear, staged packets dropped) followed by
    Peer.Start (lastSentHandshake := now - RekeyTimeout - 1 s).  What a restart KEEPS is what the
    freshness checks live on: the greatest consumed timestamp, the time of the last consumption,
@@ -316,6 +329,11 @@ Definition step (st : dstate) (e : event) : dstate * list output :=
   | ESetNonce p =>
       match find_peer st p with
       | Some x => (put_peer st (set_rekey x), [])
+      | None => (st, [])
+      end
+  | EAgeKeys p =>
+      match find_peer st p with
+      | Some x => (put_peer st (age_keys x), [])
       | None => (st, [])
       end
   end.
